@@ -388,6 +388,8 @@ func (d *bdrv) check(m *lmon) {
 }
 
 func (d *bdrv) diag() string {
+	d.mu.Lock()
+	defer d.mu.Unlock()
 	return fmt.Sprintf("active files %d, read errors %d, hook hits %v", d.b.ActiveFileCount(), d.b.ReadErrors(), d.h)
 }
 
